@@ -1182,6 +1182,14 @@ func (f *Field) Import(rowIDs, columnIDs []uint64, timestamps []*time.Time, opts
 
 	fieldType := f.Type()
 
+	// A clear import cannot carry timestamps, so on a time field it has to
+	// clear the bit in every existing view, as Clear() does.
+	var clearViews []*view
+	clearAllViews := options.Clear && fieldType == FieldTypeTime
+	if clearAllViews {
+		clearViews = f.views()
+	}
+
 	// Split import data by fragment.
 	dataByFragment := make(map[importKey]importData)
 	for i := range rowIDs {
@@ -1198,7 +1206,13 @@ func (f *Field) Import(rowIDs, columnIDs []uint64, timestamps []*time.Time, opts
 		}
 
 		var standard []string
-		if timestamp == nil {
+		if clearAllViews {
+			for _, v := range clearViews {
+				if v.Fragment(columnID/ShardWidth) != nil {
+					standard = append(standard, v.name)
+				}
+			}
+		} else if timestamp == nil {
 			standard = []string{viewStandard}
 		} else {
 			standard = viewsByTime(viewStandard, *timestamp, q)
